@@ -9,6 +9,7 @@ counts per run segment are symbolic integers.
 """
 import copy
 import datetime
+import os
 
 import numpy as np
 
@@ -37,19 +38,26 @@ FUNCTIONS = [
     "nessai.proposal.importance.ImportanceFlowProposal.__setstate__",
     "nessai.flowmodel.base.FlowModel.__getstate__",
     "nessai.flowmodel.importance.ImportanceFlowModel.__getstate__",
+    "nessai.flowmodel.importance.ImportanceFlowModel.resume",
+    "nessai.flowmodel.importance.ImportanceFlowModel.update_weights_path",
+    "nessai.flowmodel.importance.ImportanceFlowModel.load_all_weights",
+    "nessai.flowmodel.importance.ImportanceFlowModel.add_new_flow",
     "nessai.model.Model.__getstate__",
 ]
 BOUNDS = {
     "quick": dict(cycles="1..3 checkpoint/resume cycles", live_points=2, flags="all combinations of populated / indices empty / uninformed / mask kind (None, list, ndarray)",
-                  clock="checkpoint_clock: 2 checkpoints (signal / forced / periodic, interval met or not) at arbitrary non-decreasing instants; resume_clock: one checkpoint, arbitrary downtime, loop entry with the stopping rule met, one further checkpoint"),
+                  clock="checkpoint_clock: 2 checkpoints (signal / forced / periodic, interval met or not) at arbitrary non-decreasing instants; resume_clock: one checkpoint, arbitrary downtime, loop entry with the stopping rule met, one further checkpoint",
+                  ins_flowmodel_cycles="2 checkpoint/resume cycles of ImportanceFlowModel, 1..3 flows before the first, 0..2 trained in between, 0..1 stale weights files"),
     "thorough": dict(cycles="1..5 checkpoint/resume cycles", live_points=3, flags="all combinations of populated / indices empty / uninformed / mask kind (None, list, ndarray)",
-                     clock="checkpoint_clock: 4 checkpoints; resume_clock as in the quick tier"),
+                     clock="checkpoint_clock: 4 checkpoints; resume_clock as in the quick tier",
+                     ins_flowmodel_cycles="as in the quick tier"),
 }
 SCOPE = "Attributes are compared field by field between the writer and the restored object; symbolic values make a swapped or recomputed field visible."
 ASSUMPTIONS = [
     "pickle round-trips a state dictionary faithfully (deep copy); torch weight files are outside this check (C11)",
     "the resuming process passes a fresh model object (evaluation counter 0), as a new process does",
-    "FlowProposal.initialise / ImportanceFlowModel.resume (network construction, torch) are stubs",
+    "FlowProposal.initialise (network construction, torch) is a stub; in the sampler-level units the proposal's flow model is a stub object",
+    "ins_flowmodel_cycles: the real ImportanceFlowModel methods run with torch (ModuleList = list with eval(), device, load = identity on the path), glob.glob (returns the weights files written so far, in reverse order), configure_model (tagged stub flow), update_flow_config (identity), FlowModel.initialise and reset_optimiser stubbed",
     "checkpoint_clock / resume_clock: datetime.datetime.now() returns arbitrary non-decreasing instants; safe_file_dump and the checkpoint callback are no-ops; in resume_clock the stopping rule is already met when the run is resumed, so the loop body is not entered (nothing in it touches the clock), finalisation internals (final flow, plots, KL) are stubs",
 ]
 OUTSIDE = ["real pickle / torch serialisation", "that a killed-and-resumed real run completes (bookkeeping of the interrupted iteration: C13)", "float32 agreement of re-derived densities"]
@@ -608,6 +616,85 @@ def make_resume_clock(which):
     return body
 
 
+def make_ins_flowmodel_cycles():
+    """checkpoint -> resume -> train more flows -> checkpoint -> resume of the real ImportanceFlowModel (torch / glob stubbed)."""
+    def body(ctx):
+        import nessai.flowmodel.importance as M
+
+        class Flow:
+            def __init__(self, tag=None):
+                self.loaded = tag
+                self.device = None
+
+            def load_state_dict(self, tag):
+                self.loaded = tag
+
+        class ModuleList(list):
+            def eval(self):
+                return self
+
+        files = []
+        saved = dict(glob=M.glob, torch=M.torch, configure_model=M.configure_model, update_flow_config=M.update_flow_config)
+        M.glob = type("G", (), {"glob": staticmethod(lambda pattern: list(reversed(files)))})
+        M.torch = type("T", (), {"nn": type("NN", (), {"ModuleList": ModuleList}), "device": staticmethod(lambda d: d), "load": staticmethod(lambda f: f)})
+        M.configure_model = lambda cfg: Flow()
+        M.update_flow_config = lambda cfg: cfg
+
+        class IFM(M.ImportanceFlowModel):
+            def initialise(self):
+                self.initialised = True
+
+            def reset_optimiser(self):
+                pass
+        try:
+            k1 = 1 + ctx.choice("k1", 3)
+            k2 = ctx.choice("k2", 3)
+            stale = ctx.choice("extra_files", 2)       # weights files of levels beyond the checkpoint left on disk
+            ifm = IFM.__new__(IFM)
+            ifm.output = "out"
+            ifm.flow_config = dict(n_inputs=2)
+            ifm.training_config = dict()
+            ifm.initialised = True
+            ifm._optimiser = None
+            ifm.weights_files = []
+            ifm.models = ModuleList()
+            cur = ifm
+
+            def train(m, k):
+                for _ in range(k):
+                    i = len(m.models)
+                    m.add_new_flow(reset=True)
+                    f = os.path.join("out", f"level_{i}", "model.pt")
+                    m.models[-1].loaded = f
+                    if f not in files:
+                        files.append(f)
+            train(cur, k1)
+            for cycle, more in ((1, k2), (2, 0)):
+                n_ckpt = len(cur.models)
+                tags = [f.loaded for f in cur.models]
+                state = copy.deepcopy(cur.__getstate__())
+                if cycle == 2:
+                    files.extend(os.path.join("out", f"level_{n_ckpt + j}", "model.pt") for j in range(stale))
+                new = IFM.__new__(IFM)
+                new.__dict__.update(state)
+                ctx.prove(not new.models, "flows themselves are not pickled")
+                try:
+                    new.resume(dict(n_inputs=2), weights_path="out")
+                except Exception as e:
+                    ctx.fail(f"flow model resume raised {type(e).__name__} in cycle {cycle}", str(e))
+                    return
+                ctx.prove(new.n_models == n_ckpt, f"resume {cycle}: as many flows are rebuilt as the checkpointed model held")
+                ctx.prove([f.loaded for f in new.models] == tags, f"resume {cycle}: flow i is rebuilt from the weights of level i")
+                ctx.prove(new.initialised is True, f"resume {cycle}: the flow model is initialised")
+                cur = new
+                train(cur, more)
+            ctx.cover("end")
+        finally:
+            for k, v in saved.items():
+                setattr(M, k, v)
+    return body
+
+
 def units(tier):
     us = []
     opts = dict()
@@ -621,6 +708,7 @@ def units(tier):
     for which in ("standard", "ins"):
         us.append(Unit(f"resume_clock[{which}]", make_resume_clock(which), MODS + ["nessai.samplers.base", "nessai.samplers.nestedsampler", "nessai.samplers.importancesampler"], opts,
                        expect_cover=["end"], twin_runs=10, witness_every=1, nproc=1))
+    us.append(Unit("ins_flowmodel_cycles", make_ins_flowmodel_cycles(), MODS, opts, expect_cover=["end"], twin_runs=10, witness_every=1, nproc=1))
     for mode in ("callback", "file"):
         k = 2 if tier == "quick" else 4
         us.append(Unit(f"checkpoint_clock[{mode},checkpoints={k}]", make_checkpoint_clock(mode, k), MODS + ["nessai.samplers.base"], opts, expect_cover=["end"],
